@@ -24,6 +24,9 @@
        sharing) is not judged any more in that execution (counter `contended`); the generators keep the number
        of notes below the number of chip channels;
      * bank select, program change on the drum channel, CC120/121/123 put a channel out of scope (not judged).
+     * channels 16..31 exist in executions whose init line carries "seq": the commands are then delivered by the sequencer
+       from a two-port song (harness), channel 16 + c being channel c of the second port; every rule above applies to
+       them unchanged (channel 25 is the second port's percussion channel);
    Failure labels: pitch, glide-range, glide-end, monotone, bend-skips-keydown, bend-skips-sostenuto-keydown,
    glide-skips-sostenuto-keydown (at most MaxPerLabel records each). *)
 EXTENDS Pitch, Json, IOUtils
@@ -60,15 +63,15 @@ DevCat(dev) == IF dev <= 64 THEN CatQ1 ELSE IF dev <= 128 THEN CatQ2 ELSE IF dev
 
 Chan0 == [ok |-> TRUE, bend |-> 0, msb |-> -1, lsb |-> -1, rm |-> -1, rl |-> -1, nrpn |-> FALSE, prog |-> 0, ped |-> FALSE,
           pen |-> FALSE, porta |-> 0, psrc |-> -1, vib |-> 0, cat |-> 0, nat |-> FALSE]
-St0 == [fam |-> 0, banks |-> <<>>, chans |-> [c \in 1..16 |-> Chan0] \o <<>>, notes |-> <<>>, last |-> <<>>, cont |-> {}]
+St0 == [fam |-> 0, banks |-> <<>>, chans |-> [c \in 1..32 |-> Chan0] \o <<>>, notes |-> <<>>, last |-> <<>>, cont |-> {}]
 
 Init == l = 1 /\ pi = 0 /\ st = St0 /\ fails = <<>> /\ cnt = Cnt0 /\ drift = <<>> /\ exec = 0
 
 \* instrument a NoteOn(ch, k) resolves to: bank 0 melodic by program / bank 0 percussive by key; i = -1: none
 NoIns == [i |-> -1]
 InsOf(s, ch, k) ==
-  LET p == IF ch = 9 THEN 1 ELSE 0
-      idx == IF ch = 9 THEN k ELSE s.chans[ch + 1].prog
+  LET p == IF ch % 16 = 9 THEN 1 ELSE 0
+      idx == IF ch % 16 = 9 THEN k ELSE s.chans[ch + 1].prog
       bi == FirstIdx(s.banks, LAMBDA bk : bk.p = p /\ bk.msb = 0 /\ bk.lsb = 0)
   IN IF bi = 0 THEN NoIns
      ELSE LET ii == FirstIdx(s.banks[bi].ins, LAMBDA r : r.i = idx) IN IF ii = 0 THEN NoIns ELSE s.banks[bi].ins[ii]
@@ -124,7 +127,7 @@ NoteOn(s, ch, k, w) ==
   LET s1 == ReleaseKey(s, ch, k, TRUE)
       c == s1.chans[ch + 1]
       ins == InsOf(s1, ch, k)
-      perc == ch = 9
+      perc == ch % 16 = 9
   IN IF ins.i = -1 THEN SetChan(s1, ch, [c EXCEPT !.psrc = k])
      ELSE IF w = <<>> THEN s1
      ELSE LET cc == w[Len(w)][1]
@@ -147,7 +150,7 @@ TickFinal(s, us) == IF us < LongTick THEN TickWiden(s)
                     ELSE MapNotes(TickWiden(s), LAMBDA m : IF m.gl THEN [m EXCEPT !.lo = m.tgt, !.hi = m.tgt, !.gl = FALSE] ELSE m)
 
 Apply(s, pc, w) ==
-  CASE pc.o = "pc" -> SetChan(s, pc.ch, IF pc.ch = 9 /\ pc.p # 0 THEN [s.chans[pc.ch + 1] EXCEPT !.ok = FALSE]    \* selects another drum kit
+  CASE pc.o = "pc" -> SetChan(s, pc.ch, IF pc.ch % 16 = 9 /\ pc.p # 0 THEN [s.chans[pc.ch + 1] EXCEPT !.ok = FALSE]    \* selects another drum kit
                                         ELSE [s.chans[pc.ch + 1] EXCEPT !.prog = pc.p])
     [] pc.o = "cc" -> CtlCC(s, pc.ch, pc.n, pc.v)
     [] pc.o = "bend" -> SetChan(s, pc.ch, [s.chans[pc.ch + 1] EXCEPT !.bend = pc.v - 8192])
@@ -157,7 +160,7 @@ Apply(s, pc, w) ==
     [] pc.o = "on" -> IF pc.v = 0 THEN ReleaseKey(s, pc.ch, pc.k, FALSE) ELSE NoteOn(s, pc.ch, pc.k, w)
     [] pc.o = "off" -> ReleaseKey(s, pc.ch, pc.k, FALSE)
     [] pc.o = "tick" -> TickFinal(s, pc.us)
-    [] OTHER -> [s EXCEPT !.chans = [i \in 1..16 |-> [s.chans[i] EXCEPT !.ok = FALSE]] \o <<>>, !.notes = <<>>]
+    [] OTHER -> [s EXCEPT !.chans = [i \in 1..32 |-> [s.chans[i] EXCEPT !.ok = FALSE]] \o <<>>, !.notes = <<>>]
 
 \* ------------------------------------------------------------------ judging one recorded write
 VibAmp(c) == IF c.nat THEN (127 * U) \div 254 + 1
